@@ -283,3 +283,48 @@ func verifH_C07_no_callback() {
 	verifAssert((err == nil) == want, "C07 no callback: without an authentication callback exactly the requests that need no authentication pass")
 	verifReach("end")
 }
+
+// verifUntypedSchemas: schemas without a type (legal: they constrain whatever value there is)
+// and whether the texts "a" / "zz" satisfy them read as strings.
+func verifUntypedSchema(k int) (*openapi3.Schema, [2]bool) {
+	one := uint64(1)
+	switch k {
+	case 0:
+		return &openapi3.Schema{}, [2]bool{true, true}
+	case 1:
+		return &openapi3.Schema{Enum: []any{"a", "b"}}, [2]bool{true, false}
+	case 2:
+		return &openapi3.Schema{MinLength: one}, [2]bool{true, true}
+	default:
+		return &openapi3.Schema{Pattern: "^a$"}, [2]bool{true, false}
+	}
+}
+
+//verif:harness id=C07 tier=quick,thorough witness=end bounds="parameters whose schema has no type: location header / query / path / cookie x schema in {{}, enum [a,b], minLength 1, pattern ^a$} x value a / zz: the parameter is accepted exactly when the text, read as the string it is, satisfies the schema"
+func verifH_C07_untyped_params() {
+	in := []string{"header", "query", "path", "cookie"}[verifChoose("in", 4)]
+	schema, sat := verifUntypedSchema(verifChoose("schema", 4))
+	vi := verifChoose("value", 2)
+	text := []string{"a", "zz"}[vi]
+	p := &openapi3.Parameter{Name: "p", In: in, Required: in == "path", Schema: &openapi3.SchemaRef{Value: schema}}
+	if p.Validate(context.Background()) != nil {
+		return
+	}
+	req := &http.Request{Method: "GET", Header: http.Header{}, URL: &url.URL{Path: "/"}}
+	input := &RequestValidationInput{Request: req, QueryParams: url.Values{}, PathParams: map[string]string{}, Options: &Options{}}
+	switch in {
+	case "header":
+		req.Header["P"] = []string{text}
+	case "query":
+		input.QueryParams["p"] = []string{text}
+	case "path":
+		input.PathParams["p"] = text
+	case "cookie":
+		req.Header["Cookie"] = []string{"p=" + text}
+	}
+	err := ValidateParameter(context.Background(), input, p)
+	verifKnown("C07-untyped-schema-present-value-rejected", sat[vi])
+	verifAssert((err == nil) == sat[vi], "C07 untyped: a present value is accepted exactly when it satisfies the type-less schema")
+	verifKnown("C07-untyped-schema-present-value-rejected", false)
+	verifReach("end")
+}
